@@ -104,7 +104,7 @@ CHECKS = {
                      "and join, so the single TSan execution per input decides race freedom for all schedules; 20 scenarios are additionally explored over all interleavings.",
                 note="SC interleavings; key alphabet 3; stated tuple bounds; parallel path forced through the documented global switches"),
     "C04": dict(engine="vsched+venum", technique=E3 + " with every case executed on the scheduler's deterministic default schedule (ASan; TSan on a reduced product); " + E1 + " (delay-bounded) for the schedule dimension", design="4/C04",
-                text="Real template code parallel_sample_sort_params<P> (what sort_strings_parallel runs) instantiated with 6 tiny-threshold parameter sets so that the whole "
+                text="Real template code parallel_sample_sort_params<P> (what sort_strings_parallel runs) instantiated with 7 tiny-threshold parameter sets so that the whole "
                      "job graph (sample/count/distribute/big-step recursion, sequential sample sort, mkqs, work sharing, LCP pass) runs on small inputs: every sequence of "
                      "<=4/<=5 strings over 7 short strings plus all-equal/long-prefix/duplicate/prefix-chain/high-byte families up to n=40, x workers 1..3 x with/without LCP x "
                      "C strings/std::string x sampler seeds: sorted permutation of the same string objects, exact LCPs, termination (deadlock = no runnable thread), ASan "
@@ -139,6 +139,20 @@ CHECKS = {
                      "reaching remove()'s sift-up; RadixHeap: 8 key types x radix {2,4,8,16,64}, 11-key alphabet incl. extremes, BFS depth 5/6 with canonical-state de-duplication, "
                      "every new state drained twice (top/pop and swap_top_bucket) against the sorted model, in an asserts-on and an NDEBUG build. Size, top, sanity_check, drain order.",
                 note="RadixHeap histories are depth-bounded; keys below the key last returned by top() are only driven in the separate known-finding run (tlx documents top() as raising the insertion limit)"),
+    "C01": dict(engine="vhist", technique=E2, design="4/C01",
+                text="Real btree_set/multiset/map/multimap facades with custom traits next to the std containers: BFS closure (mode A) for small capacities and key universes "
+                     "((4,4) set K=12 quick / K=14 thorough with three-level trees, 6 capacities x 4 kinds x linear/binary search x less/greater in thorough, multi kinds with "
+                     "multiplicity caps, two-tree configurations for copy/assign/swap) and depth-bounded BFS (mode B) from bulk_load(n) seeds for every (leaf,inner) in [4..9]^2 "
+                     "and the default traits; ops insert (plain and hinted), erase(key), erase_one, erase(iterator) at every position, clear, bulk_load of sorted sequences, "
+                     "copy-construct, assign, self-assign, swap; in every new state every query (exists/find/count/bounds/equal_range for all keys, forward and reverse "
+                     "iteration, ++/-- round trips, all six relational operators, operator[], deep-copy independence) compared with the std container, equal-key runs as multisets.",
+                note="finite key universes / multiplicity caps as stated; mode B is depth-bounded (1-3); int and lifetime-tracked keys; comparators less/greater"),
+    "C02": dict(engine="vhist", technique=E2, design="4/C02",
+                text="Same exploration as C01 (same binaries), structural oracle: after EVERY mutating transition verify() (die switched to exceptions), an independent walk "
+                     "of the node structure through tlx::btree_friend (levels, slotuse >= half, key order within and across nodes, separators, leaf chain both ways), "
+                     "get_stats() vs the walk, leaves+inner == live nodes in this tree's counting allocator; lifetime-tracked key/value type under ASan: every element "
+                     "constructed and destroyed exactly once, none alive after the state is destroyed, no access to dead elements or released nodes.",
+                note="as C01; the two oracle families are always both evaluated, C01 reports reference disagreement, C02 invariant/ledger/memory failures"),
 }
 
 NA = {}
